@@ -196,13 +196,29 @@ func runSub(c config, dir, tag string) map[string]string {
 	return out
 }
 
+var (
+	portMu   sync.Mutex
+	nextPort = 21000 + (os.Getpid()%200)*100
+)
+
+// freeUDPPort hands out UDP ports for the gateway processes of this check: never the same port twice within
+// this process (parallel runs must not end up talking to each other's gateway), each verified to be free.
 func freeUDPPort() int {
-	c, err := net.ListenUDP("udp4", &net.UDPAddr{IP: net.IPv4(127, 0, 0, 1)})
-	if err != nil {
-		return 0
+	portMu.Lock()
+	defer portMu.Unlock()
+	for i := 0; i < 20000; i++ {
+		nextPort++
+		if nextPort > 60000 {
+			nextPort = 21000
+		}
+		c, err := net.ListenUDP("udp4", &net.UDPAddr{IP: net.IPv4(127, 0, 0, 1), Port: nextPort})
+		if err != nil {
+			continue
+		}
+		c.Close()
+		return nextPort
 	}
-	defer c.Close()
-	return c.LocalAddr().(*net.UDPAddr).Port
+	return 0
 }
 
 // snExchange sends a datagram (repeating it every 200 ms: the gateway may still be starting) and
